@@ -97,6 +97,31 @@ def aluInteractions (D lanes kmax : Nat) (ml pl : List K) : List (List K × K) :
       (vget pl (p + 1) :: seg ml (off + D) D, vget pl (p + 5)) ]
   perLane ++ extra
 
+/-- `WitnessSendAir::eval` (the Const and Public tables): no constraint; one WitnessChecks send per
+lane, `(witness_idx :: value limbs)` with the preprocessed multiplicity. The value is a *main trace*
+cell: nothing ties a Const row's value to the circuit's constant (finding F4). Preprocessed lane
+layout (`WitnessLookupPrepCols`): 0 multiplicity, 1 witness_idx. -/
+def sendInteractions (D lanes : Nat) (ml pl : List K) : List (List K × K) :=
+  (List.range lanes).map fun lane =>
+    (vget pl (lane * 2 + 1) :: seg ml (lane * D) D, vget pl (lane * 2))
+
+def sendConstraints (_D _lanes : Nat) (_ml _pl : List K) : List K := []
+
+/-- `RecomposeAir::eval` (the `recompose` table, packing D base coefficients into one extension
+element): no constraint; per lane the output tuple `(output_idx :: limbs)` with `out_mult`, and — with
+`coeff_lookups` — one tuple `(coeff_idx_i, limb_i, 0, …, 0)` per coefficient. Preprocessed lane
+layout: 0 output_idx, 1 out_mult, then `(coeff_idx_i, coeff_mult_i)` pairs. -/
+def recomposeInteractions (D lanes : Nat) (coeff : Bool) (ml pl : List K) : List (List K × K) :=
+  let plw := if coeff then 2 + 2 * D else 2
+  (List.range lanes).flatMap fun lane =>
+    let m := lane * D
+    let p := lane * plw
+    (vget pl p :: seg ml m D, vget pl (p + 1)) ::
+      (if coeff then
+        (List.range D).map fun i =>
+          (vget pl (p + 2 + i * 2) :: vget ml (m + i) :: List.replicate (D - 1) 0, vget pl (p + 2 + i * 2 + 1))
+       else [])
+
 /-- Intra-row packed legs for one arity selector `kk` (the `while s < kk` loop), by fuel. -/
 def packedLegs (D kmax : Nat) (kind : ExtKind K) (ml : List K) (extraMain acBase : Nat)
     (b bSq out : List K) (selKK : K) (kk : Nat) : Nat → Nat → Nat → List K
